@@ -12,8 +12,8 @@ import (
 
 // ---- C14: execution-context hooks ----
 
-func hookCtx(name string, upFail bool) CtxCfg {
-	return CtxCfg{Name: name, Up: []string{"up1:" + name, "up2:" + name}, Down: []string{"down:" + name}, Before: []string{"cb:" + name}, After: []string{"ca:" + name}, UpFail: upFail}
+func hookCtx(name string, upFail int) CtxCfg {
+	return CtxCfg{Name: name, Up: []string{"up1:" + name, "up2:" + name}, Down: []string{"down:" + name}, Before: []string{"cb:" + name}, After: []string{"ca:" + name}, UpFail: upFail > 0, UpFailFirst: upFail == 2}
 }
 
 func svcToken(cmd string) string {
@@ -223,7 +223,7 @@ func hookUnits(res *common.Result, each func(Scenario, int) bool) bool {
 					if twoCtx && n < 2 {
 						continue
 					}
-					for _, upFail := range []bool{false, true} {
+					for _, upFail := range []int{0, 1, 2} { // up fine / its last command fails / its first command fails and the next one succeeds
 						// task shapes: all tasks the same shape, plus one mixed assignment
 						var assigns [][]string
 						for _, s := range shapes {
@@ -244,7 +244,7 @@ func hookUnits(res *common.Result, each func(Scenario, int) bool) bool {
 							sc := Scenario{Mode: mode, Finish: true, Unused: true}
 							sc.Ctxs = []CtxCfg{hookCtx("c1", upFail)}
 							if twoCtx {
-								sc.Ctxs = append(sc.Ctxs, hookCtx("c2", false))
+								sc.Ctxs = append(sc.Ctxs, hookCtx("c2", 0))
 							}
 							for i := 0; i < n; i++ {
 								cx := "c1"
